@@ -7,6 +7,7 @@ mod oracle;
 mod p_c05;
 mod proto;
 mod rng;
+mod streams;
 
 use gen_common::Stats;
 use std::collections::HashSet;
